@@ -147,3 +147,16 @@ Print Assumptions C20_unionfree_env_inhabited.
 Theorem C20_union_distributes_refuted_without_noany : ~ union_distributes_without_noany.
 Proof. exact union_distributes_refuted_without_noany. Qed.
 Print Assumptions C20_union_distributes_refuted_without_noany.
+
+(* visit_BoolOp is translated from the source on every run (gen_and_step,
+   gen_or_step: the per-operand if-chain with narrowed_varmap / remaining_varmaps /
+   context narrowing / early exits; gen_and_end, gen_or_end: the result after the
+   loop); the loops assembled from them are the model's eval_and / eval_or, about
+   which C20_condition_splits_union and C20_union_distributes are proved. *)
+Theorem C20_boolop_is_translated :
+  forall (acc : typ -> member -> bool -> bool) (narrow : typ -> member -> list member) (posof : var -> posn)
+         cs rho narrowed remaining,
+  gen_and acc narrow posof rho cs narrowed remaining = eval_and acc narrow posof rho cs narrowed remaining /\
+  gen_or acc narrow posof rho cs narrowed remaining = eval_or acc narrow posof rho cs narrowed remaining.
+Proof. exact boolop_is_translated. Qed.
+Print Assumptions C20_boolop_is_translated.
